@@ -485,6 +485,7 @@ func checkC14(c *core.Ctx) error {
 	checkTraceOfProduct(c)
 	checkIntegerDivisionInConstants(c)
 	c14CompositeLayout(c)
+	checkSupportGuardsAgree(c)
 	return nil
 }
 
